@@ -441,6 +441,11 @@ impl Allocator for Arena {
 
   #[inline]
   fn increase_discarded(&self, size: u32) {
+    // the header of a read-only ARENA lives in a read-only mapping, storing to it would fault
+    if self.ro {
+      return;
+    }
+
     #[cfg(feature = "tracing")]
     tracing::debug!("discard {size} bytes");
 
@@ -459,6 +464,11 @@ impl Allocator for Arena {
 
   #[inline]
   fn set_minimum_segment_size(&self, size: u32) {
+    // the header of a read-only ARENA lives in a read-only mapping, storing to it would fault
+    if self.ro {
+      return;
+    }
+
     self.header_mut().min_segment_size = size;
   }
 
